@@ -78,12 +78,20 @@ def strip_comments(src: str) -> str:
 def hygiene():
     """Scan every .v source for forbidden commands (outside comments)."""
     bad = []
-    for p in sorted((COQ / "theories").rglob("*.v")):
+    gen = sorted((COQ / "gen").glob("*.v")) if (COQ / "gen").is_dir() else []
+    for p in sorted((COQ / "theories").rglob("*.v")) + gen:
         txt = strip_comments(p.read_text())
+        depth = 0  # Section nesting: a Variable / Hypothesis / Context outside every Section declares an axiom
         for ln, line in enumerate(txt.splitlines(), 1):
             m = FORBIDDEN.search(line)
             if m:
                 bad.append(f"{p.relative_to(COQ)}:{ln}: {m.group(0)}")
+            if re.match(r"\s*Section\s+\w+", line):
+                depth += 1
+            elif re.match(r"\s*End\s+\w+\s*\.", line) and depth > 0:
+                depth -= 1
+            elif depth == 0 and re.match(r"\s*(Variables?|Hypothes[ie]s|Context)\b", line):
+                bad.append(f"{p.relative_to(COQ)}:{ln}: {line.strip()[:40]} outside a Section")
     flags = (COQ / "_CoqProject").read_text()
     for f in ("-type-in-type", "-impredicative-set", "-vos", "-vok", "-noinit"):
         if f in flags:
